@@ -1521,6 +1521,49 @@ fn fam_mapidx(_func: Option<&str>, only: Option<u64>) {
             }
         }
     }
+    // unions of two object types (two atoms in the diagram): (A | B)[K] = A[K] | B[K]
+    let shapes2: Vec<(u8, Option<SubTypeTag>)> = (0..4u8).flat_map(|dm| [None, Some(SubTypeTag::Boolean)].into_iter().map(move |sg| (dm, sg))).collect();
+    for (n1, (dm1, sig1)) in shapes2.iter().enumerate() { for (dm2, sig2) in shapes2.iter().skip(n1 + 1) {
+        for key in &keys {
+            if !rep.want() { continue; }
+            let mut ctx = SemTypeContext::new();
+            let decl_of = |dm: u8| -> Vec<&'static str> { (0..2).filter(|i| (dm >> i) & 1 == 1).map(|i| names[i]).collect() };
+            let mut mk = |dm: u8, sig: Option<SubTypeTag>| {
+                let mut vs = BTreeMap::new();
+                for k in decl_of(dm) { vs.insert(k.to_string(), Rc::new(SemType::new_basic(decl_ty(k).code()))); }
+                let idx = sig.map(|t| IndexedPropertiesAtomic { key: Rc::new(SemTypeContext::string()), value: Rc::new(SemType::new_basic(t.code())) });
+                Rc::new(ctx.mapping_definition(vs, idx))
+            };
+            let t1 = mk(*dm1, *sig1);
+            let t2 = mk(*dm2, *sig2);
+            let t = match t1.union(&t2) { Ok(t) => t, Err(_) => continue };
+            let sel = |dm: u8, sig: Option<SubTypeTag>| -> u32 {
+                let declared = decl_of(dm);
+                let selects = |k: &str| match key { Key::All => true, Key::Listed(l) => l.contains(&k), Key::Except(l) => !l.contains(&k) };
+                let mut bits = 0u32;
+                for k in &declared { if selects(k) { bits |= decl_ty(k).code(); } }
+                let undeclared_selected = match key { Key::Listed(l) => l.iter().any(|k| !declared.contains(k)), _ => true };
+                if undeclared_selected { if let Some(t) = sig { bits |= t.code(); } }
+                bits
+            };
+            let expected = Rc::new(SemType::new_basic(sel(*dm1, *sig1) | sel(*dm2, *sig2)));
+            let lits = |l: &Vec<&'static str>| { let mut v: Vec<StringLitOrFormat> = l.iter().map(|k| strc(k)).collect(); v.sort(); v };
+            let key_t = Rc::new(match key {
+                Key::All => SemTypeContext::string(),
+                Key::Listed(l) => SemType::new_complex(0, vec![Rc::new(ProperSubtype::String { allowed: true, values: lits(l) })]),
+                Key::Except(l) => SemType::new_complex(0, vec![Rc::new(ProperSubtype::String { allowed: false, values: lits(l) })]),
+            });
+            let descr = format!("union of objects (declared {:?}, signature {:?}) | (declared {:?}, signature {:?}), indexed by {:?}", decl_of(*dm1), sig1, decl_of(*dm2), sig2, key);
+            match ctx.indexed_access(t, key_t) {
+                Ok(r) => match r.is_same_type(&expected, &mut ctx) {
+                    Ok(true) => {}
+                    Ok(false) => rep.fail(descr, format!("indexed access = {:?}", r), format!("{:?} (the union of the two member types)", expected)),
+                    Err(e) => rep.fail(descr, format!("is_same_type Err({})", e), "true".into()),
+                },
+                Err(_) => {}
+            }
+        }
+    } }
     rep.print();
 }
 
